@@ -523,6 +523,17 @@ func ruleFieldAgreement(c *Check, p *Prog, tp *types.Package, goT, pbT string) {
 						} else {
 							src = mk("const", "zero", nil, n.Ctx)
 						}
+					} else if views := p.returnedLits(x.Val, n.Ctx, 2); len(views) > 0 {
+						// the struct comes from a helper that builds it: this leaf's value in each
+						// literal the helper returns
+						for _, lv := range views {
+							if vs := lv.Field(suffix); len(vs) == 1 {
+								writes = append(writes, wr{n, vs[0]})
+							} else {
+								writes = append(writes, wr{n, mk("const", "zero", nil, n.Ctx)})
+							}
+						}
+						continue
 					}
 					writes = append(writes, wr{n, src})
 				}
@@ -605,6 +616,9 @@ func ruleFieldAgreement(c *Check, p *Prog, tp *types.Package, goT, pbT string) {
 						src = pf
 					}
 				}
+			}
+			if os.Getenv("VERIF_DEBUG_C12") != "" {
+				fmt.Fprintf(os.Stderr, "DBG %s leaf=%s src=%q wsrc=%s\n", goT, l, src, trunc(w.src.String(), 150))
 			}
 			if src != "" {
 				fromPB = append(fromPB, w.n)
